@@ -72,6 +72,7 @@ type simEth struct {
 	lag      uint64 // finalized head = head - lag (never moves backwards)
 	final    uint64
 	drain    func(n int) // called under the lock before a request is recorded: n = requests recorded so far
+	errText  string      // what the next failing calls say ("" = errTransient's text)
 }
 
 type simSub struct {
@@ -82,6 +83,17 @@ type simSub struct {
 }
 
 var errTransient = errors.New("upstream temporarily unavailable")
+
+// what a node (or the proxy in front of it) says when it is behind or overloaded; none of these is a statement about
+// the transaction that was asked for
+var transientTexts = []string{"upstream temporarily unavailable", "header not found", "block not found", "request failed or timed out", "method handler crashed"}
+
+func (s *simEth) transient() error {
+	if s.errText == "" {
+		return errTransient
+	}
+	return errors.New(s.errText)
+}
 
 func newSimEth(contract common.Address) *simEth {
 	p, err := abi.JSON(strings.NewReader(ethAbi.AbiABI))
@@ -130,7 +142,7 @@ func (a *ethAPI) GetBlockByNumber(ctx context.Context, tag string, full bool) (m
 	defer s.mu.Unlock()
 	if s.fail("eth_getBlockByNumber") {
 		s.record(served{method: "eth_getBlockByNumber", arg: tag, err: true})
-		return nil, errTransient
+		return nil, s.transient()
 	}
 	n := s.view(tag)
 	if strings.HasPrefix(tag, "0x") {
@@ -144,13 +156,26 @@ func (a *ethAPI) GetBlockByNumber(ctx context.Context, tag string, full bool) (m
 	return map[string]interface{}{"number": hexutil.EncodeUint64(n), "hash": s.blockHash(n)}, nil
 }
 
+// eth_blockNumber: the height of the latest block, whatever the chain's notion of finality.
+func (a *ethAPI) BlockNumber(ctx context.Context) (hexutil.Uint64, error) {
+	s := a.s
+	s.mu.Lock()
+	defer s.mu.Unlock()
+	if s.fail("eth_blockNumber") {
+		s.record(served{method: "eth_blockNumber", err: true})
+		return 0, s.transient()
+	}
+	s.record(served{method: "eth_blockNumber", arg: "latest", head: s.head})
+	return hexutil.Uint64(s.head), nil
+}
+
 func (a *ethAPI) GetBlockByHash(ctx context.Context, h common.Hash, full bool) (map[string]interface{}, error) {
 	s := a.s
 	s.mu.Lock()
 	defer s.mu.Unlock()
 	if s.fail("eth_getBlockByHash") {
 		s.record(served{method: "eth_getBlockByHash", arg: h.Hex(), err: true})
-		return nil, errTransient
+		return nil, s.transient()
 	}
 	s.record(served{method: "eth_getBlockByHash", arg: h.Hex()})
 	zero := common.Hash{}
@@ -178,7 +203,7 @@ func (a *ethAPI) GetTransactionReceipt(ctx context.Context, h common.Hash) (map[
 	defer s.mu.Unlock()
 	if s.fail("eth_getTransactionReceipt") {
 		s.record(served{method: "eth_getTransactionReceipt", arg: h.Hex(), err: true})
-		return nil, errTransient
+		return nil, s.transient()
 	}
 	t := s.txs[h]
 	if t == nil || t.Gone {
@@ -209,7 +234,7 @@ func (a *ethAPI) Call(ctx context.Context, args map[string]interface{}, block in
 	s.mu.Lock()
 	defer s.mu.Unlock()
 	if s.fail("eth_call") {
-		return nil, errTransient
+		return nil, s.transient()
 	}
 	in, _ := args["data"].(string)
 	if in == "" {
